@@ -557,7 +557,7 @@ fn main() {
     ck.run(
         Section::pbt(
             "hash-random",
-            tier.pick(20_000, 2_000_000),
+            tier.pick(200_000, 5_000_000),
             || {
                 (
                     prop_oneof![
@@ -624,7 +624,7 @@ fn main() {
     ck.run(
         Section::pbt(
             "salsa20-random",
-            tier.pick(3_000, 300_000),
+            tier.pick(30_000, 1_000_000),
             || {
                 (
                     any::<[u8; 16]>(),
@@ -669,7 +669,7 @@ fn main() {
     ck.run(
         Section::pbt(
             "arc4-random",
-            tier.pick(3_000, 300_000),
+            tier.pick(30_000, 1_000_000),
             || {
                 (
                     prop_oneof![
@@ -711,7 +711,7 @@ fn main() {
     );
     ck.run(Section::pbt(
         "md5-keys-random",
-        tier.pick(500, 50_000),
+        tier.pick(5_000, 100_000),
         || (0usize..20_000, any::<u64>()).prop_map(|(len, content_seed)| Md5Case { len, content_seed }).boxed(),
         |c: &Md5Case| {
             let data = Rng::new(c.content_seed).bytes(c.len);
@@ -727,7 +727,7 @@ fn main() {
     ck.run(
         Section::pbt(
             "hash-users",
-            tier.pick(20_000, 1_000_000),
+            tier.pick(200_000, 3_000_000),
             || {
                 (
                     any::<[u8; 16]>(),
@@ -815,7 +815,7 @@ fn main() {
     ck.run(
         Section::pbt(
             "simd-memmem-random",
-            tier.pick(5_000, 500_000),
+            tier.pick(50_000, 2_000_000),
             || {
                 (0usize..300, 0usize..48, any::<u16>(), prop_oneof![Just(1u8), Just(2u8), Just(3u8), Just(255u8)], any::<u64>())
                     .prop_map(|(hay_len, needle_len, p, alphabet, content_seed)| MemmemCase {
@@ -857,7 +857,7 @@ fn main() {
     ck.run(
         Section::pbt(
             "simd-batch-hashes",
-            tier.pick(3_000, 300_000),
+            tier.pick(30_000, 1_000_000),
             || {
                 (proptest::collection::vec(prop_oneof![4 => 0usize..80, 1 => 0usize..2000], 0..12), any::<u64>())
                     .prop_map(|(lens, content_seed)| BatchCase { lens, content_seed })
